@@ -643,6 +643,10 @@ def minimise_oracle(exe, case, clause):
     return vlib.ddmin(case.ops, fails, max_tests=150)
 
 
+
+def replay(path):
+    return vlib.generic_replay(path, build, "mgrdriver")
+
 if __name__ == "__main__":
     pid = sys.argv[1] if len(sys.argv) > 1 else "C15"
     tier = sys.argv[2] if len(sys.argv) > 2 else "quick"
